@@ -17,8 +17,28 @@ from .catalogue import V
 VERIF = os.path.dirname(os.path.dirname(os.path.dirname(os.path.abspath(__file__))))
 
 
+def _seeded_variants():
+    """Confirmed sub-agent seeds kept under /verif/seeded/<id>/ : patch.diff applied to the scratch copy with `git apply`;
+    meta.json names the checks that must catch it (field caught_by_checks)."""
+    import json
+    out = []
+    sd = os.path.join(VERIF, "seeded")
+    if not os.path.isdir(sd):
+        return out
+    for d in sorted(os.listdir(sd)):
+        mp = os.path.join(sd, d, "meta.json")
+        pp = os.path.join(sd, d, "patch.diff")
+        if os.path.exists(mp) and os.path.exists(pp):
+            meta = json.load(open(mp))
+            for pid in meta.get("caught_by_checks", []):
+                out.append(({"id": "seed-" + d, "kind": "FIRE", "pids": [pid], "patch": pp, "expect": None, "path": None}, pid))
+    return out
+
+
 def _one(job):
     var, pid = job
+    if var.get("patch"):
+        return _one_patch(var, pid)
     src = os.path.join(REPO, var["path"])
     try:
         text = open(src).read()
@@ -54,6 +74,30 @@ def _one(job):
         shutil.rmtree(tmp, ignore_errors=True)
 
 
+def _one_patch(var, pid):
+    tmp = tempfile.mkdtemp(prefix="dfvself_")
+    try:
+        shutil.copytree(os.path.join(REPO, "dfols"), os.path.join(tmp, "dfols"), ignore=shutil.ignore_patterns("__pycache__"))
+        shutil.copytree(os.path.join(REPO, "docs"), os.path.join(tmp, "docs"), ignore=shutil.ignore_patterns("build", "*.png", "*.html"))
+        r = subprocess.run(["git", "apply", "--unsafe-paths", var["patch"]], cwd=tmp, capture_output=True, text=True)
+        if r.returncode != 0:
+            return (var["id"], pid, "skipped", "patch no longer applies: %s" % r.stderr.strip()[:120])
+        for root, _d, files in os.walk(os.path.join(tmp, "dfols")):
+            for f in files:
+                if f.endswith(".py"):
+                    try:
+                        compile(open(os.path.join(root, f)).read(), f, "exec")
+                    except SyntaxError as e:
+                        return (var["id"], pid, "error", "does not compile: %s" % e)
+        env = dict(os.environ, DFV_NO_EVIDENCE="1")
+        r = subprocess.run([sys.executable, "-m", "dfv", "check", pid, "--root", tmp, "--no-evidence"], cwd=VERIF, capture_output=True, text=True, env=env, timeout=600)
+        if r.returncode == 1 and "VIOLATION" in r.stdout:
+            return (var["id"], pid, "fired", "")
+        return (var["id"], pid, "missed", "exit %d; tail: %s" % (r.returncode, r.stdout[-300:].replace("\n", " | ")))
+    finally:
+        shutil.rmtree(tmp, ignore_errors=True)
+
+
 def run_variants(pids=None, kinds=("FIRE", "SILENT"), jobs=16, ids=None):
     work = []
     for var in V:
@@ -63,6 +107,13 @@ def run_variants(pids=None, kinds=("FIRE", "SILENT"), jobs=16, ids=None):
             continue
         for pid in var["pids"]:
             if pids and pid not in pids:
+                continue
+            work.append((var, pid))
+    if "FIRE" in kinds:
+        for (var, pid) in _seeded_variants():
+            if pids and pid not in pids:
+                continue
+            if ids and var["id"] not in ids:
                 continue
             work.append((var, pid))
     t0 = time.time()
